@@ -72,7 +72,9 @@ package authboss
 //@   ensures finds_writer: result != nil
 //@
 //@ func setState
-//@   property C11
+//@   property C11 C07 C09 C10
+//@   -- (C07, C09, C10: a deletion queued by remember, expiry or logout is never dropped or
+//@   -- reordered - every call appends exactly its own event)
 //@   -- exactly one event {op, key, val} is appended to exactly the list of the store named by
 //@   -- ctxKey; the other list and both read states are left alone
 //@   ensures append_right_list:
@@ -90,6 +92,19 @@ package authboss
 //@   ensures nothing_delivered: !emits CS.WriteState(_, _, _, _) && !emits WriteHeader(_, _) && !emits Write(_, _)
 //@
 //@ spec lists_distinct(c) := len(c.sessionStateEvents) == 0 || len(c.cookieStateEvents) == 0 || c.sessionStateEvents != c.cookieStateEvents
+//@
+//@ func (ClientStateResponseWriter).Header
+//@   property C11
+//@   -- the header map of the wrapped writer: reading or filling it releases nothing
+//@   ensures header_releases_nothing: !emits Write(_, _) && !emits WriteHeader(_, _) && !emits CS.WriteState(_, _, _, _)
+//@
+//@ func (ClientStateResponseWriter).Hijack
+//@   property C11
+//@   -- hijacking hands the raw connection to the caller: the library itself writes nothing and
+//@   -- delivers nothing. (What a handler does with a hijacked connection is outside C11, whose
+//@   -- handler programs are put / delete / delete-all, header writes and body writes; queued
+//@   -- changes of a hijacking handler are NOT delivered - stated here, not proved away.)
+//@   ensures hijack_writes_nothing: !emits Write(_, _) && !emits WriteHeader(_, _) && !emits CS.WriteState(_, _, _, _)
 //@
 //@ func (*ClientStateResponseWriter).putClientState
 //@   property C11 C09 C10
@@ -140,10 +155,11 @@ package authboss
 //@   ensures read_error_outcome: each CS.ReadState(_, _) -> (_, ?e) => e != nil ==> result.1 == e
 //@
 //@ func (*Authboss).LoadClientStateMiddleware#1
-//@   property C11 C17
+//@   property C11 C17 C20
+//@   -- (C20: every request gets a writer of its own - not the caller's, not a recycled one)
 //@   -- the wrapped handler gets the flushing writer and the request that carries the state
 //@   -- read at the start; a read failure answers 500 without running it
-//@   ensures[C11] wraps_writer: each Next.ServeHTTP(_, ?w2, _) => w2 != w
+//@   ensures[C11,C20] wraps_writer: each Next.ServeHTTP(_, ?w2, _) => w2 != w
 //@   ensures[C11] read_failure_500: (each CS.ReadState(_, _) -> (_, ?e) => e != nil ==> (after WriteHeader(_, 500) && !emits Next.ServeHTTP(_, _, _)))
 //@   ensures[C17] no_secret_leak: secrets_clean
 //@
@@ -156,6 +172,24 @@ package authboss
 //@
 //@ func (*bcryptHasher).GenerateHash
 //@   property C06 C17
-//@   ensures[C06] generate_is_bcrypt: result.1 == nil ==> (hash_ok(result.0, password) && len(result.0) > 0)
+//@   -- (C17: what is stored is a hash that verifies the password, never the password itself)
+//@   ensures[C06,C17] generate_is_bcrypt: result.1 == nil ==> (hash_ok(result.0, password) && len(result.0) > 0)
 //@   ensures[C06] error_returns_nothing: result.1 != nil ==> result.0 == ""
 //@   ensures[C17] no_secret_leak: secrets_clean
+//@
+//@ func (*Authboss).CurrentUserID
+//@   property C09
+//@   -- C09: the identity of a request is read from exactly two places - the context pid and
+//@   -- the session's uid - which are the two the expiry middleware hides
+//@   ensures hidden_means_anonymous: (ctxpid(r) == nil && !sess_has(r, SessionKey)) ==> (result.0 == "" && result.1 == nil)
+//@
+//@ func (*Authboss).CurrentUser
+//@   property C09
+//@   ensures hidden_means_anonymous: (ctxuser(r) == nil && ctxpid(r) == nil && !sess_has(r, SessionKey)) ==>
+//@       (result.0 == nil && result.1 == ErrUserNotFound && !emits Store.Load(_))
+//@
+//@ func (*Authboss).LoadCurrentUser
+//@   property C09
+//@   ensures hidden_means_anonymous: (ctxuser(deref(r)) == nil && ctxpid(deref(r)) == nil && !sess_has(deref(r), SessionKey)) ==>
+//@       (result.0 == nil && result.1 == ErrUserNotFound && !emits Store.Load(_))
+
